@@ -190,7 +190,7 @@ def run_coop(seed, profile, backend, tid, hook=None):
             while live and nsteps < 400:
                 nsteps += 1
                 j = rng.choice(live)
-                op = {"op": "CoopNext", "g": j + 1, "done": False}
+                op = {"op": "CoopNext", "g": j + 1, "done": False, "result": []}
                 res = {"exc": "", "pages": 0, "created": [], "ret": None}
                 del impl.WRITE_LOG[:]
                 try:
@@ -204,6 +204,8 @@ def run_coop(seed, profile, backend, tid, hook=None):
                             res.update(impl.report_dict(state.result))
                         else:
                             results[j] = result_items(descr[j], state.result)
+                            if descr[j]["kind"] in ("qpages", "qcrawled"):
+                                op["result"] = list(results[j])
                 except StopIteration:
                     op["done"] = True
                     live.remove(j)
